@@ -133,6 +133,10 @@ def gen_case(seed, idx, profile):
                     waddr = None
                 else:
                     waddr = rnd.choice([rnd.randrange(0, 1 << aw), (rnd.randrange(0, 1 << aw) >> caw) << caw])
+                if profile == "names" and rnd.random() < 0.2:
+                    # first an attempt that fails for an address reason, then the same window (same name)
+                    # again: the refused call must not have reserved anything
+                    ops.append(("win", h, ch, wname, (1 << aw) - (1 << max(0, caw - 1)), sparse))
                 ops.append(("win", h, ch, wname, waddr, sparse))
                 if rnd.random() < 0.1:
                     ops.append(("win", h, ch, name(), None, sparse))   # add the same window again
@@ -355,7 +359,7 @@ def run_impl(case):
                 if snapshot(h) != before or m.align_to(0) != cur_before:
                     fails.append(("C02", "refused add_window changed the map", len(obs)))
                 qs = [tuple(wname)] if wname is not None else sorted(visible[ch], key=str)
-                if (profile == "names" and res == "refused" and not frozen[h]
+                if (profile == "names" and res == "refused" and not frozen[h] and waddr is None
                         and not any(it["kind"] == "win" and it["id"] == ch for it in handed[h])
                         and (c.data_width == m.data_width or sparse is True)
                         and not any(related(q, v) for q in qs for v in visible[h])):
